@@ -581,7 +581,7 @@ class C10(Suite):
         if rng.random() < 0.55:
             # the model evaluates the WHERE clause itself (operation ModifyW): any pattern of the fragment
             # BGP / Join / GRAPH under any WITH / USING / USING NAMED combination, also where rdflib's
-            # dataset is not the prescribed one (F10i, F10j: model = rdflib, the specification differs)
+            # dataset is not the prescribed one (F10i: model = rdflib, the specification differs)
             cands = [k for k in range(len(WHERES)) if in_fragment(k) and not (plain and WHERES[k][1])]
             wk = rng.choice(cands)
             kind = "modifyw"
@@ -612,7 +612,7 @@ class C10(Suite):
             # no WITH/USING: the store's own dataset.  With the switch off its default graph is the real default
             # graph whatever the front end: evaluated on an independent copy (a Dataset with default_union False,
             # switch off) so that the solution list does not depend on how QueryContext picks ctx.graph.  With the
-            # switch on the front end's own reading is taken (ConjunctiveGraph: union; see notes, F10j, for Dataset).
+            # switch on the front end's own reading is taken (ConjunctiveGraph: union; Dataset(default_union=False): its real default graph).
             if case["union"] or not isinstance(case["fe"], str):
                 return front
             copy = Dataset()
